@@ -1310,6 +1310,8 @@ class H2Connection:
         if not self.config.client_side:
             raise RFC1122Error("Servers SHOULD NOT prioritize streams.")
 
+        _validate_priority(stream_id, weight, depends_on)
+
         self._process_local_input(
             ConnectionInputs.SEND_PRIORITY
         )
